@@ -32,7 +32,10 @@ REGISTRY = dict(
           "= exp(op)v) is stated, not proved. FINDING D20-C07 (open, class krylov-early-accept-avnorm): the unchanged code "
           "violates the accuracy clause inside the quantifier when the start vector is nearly an eigenvector of the "
           "dominant part (err2 uses |op v_j| instead of Expokit's |op v_{j+1}|): kernel-checked exact model run "
-          "(early_accept_witness) + replay on the real code against scipy on every run."),
+          "(early_accept_witness) + replay on the real code against scipy on every run. FINDING D21-C07 (open, class "
+          "krylov-accept-err1-ignores-err2): err = err1 whenever err1 < err2 lets a vanishing err1 (exp(alpha) ~ 1) override "
+          "err2 >= tol; witness replayed on every run. The public krylov_exp is modelled with its own parameter list and "
+          "driven with distinct tolerances in both orders (public_krylov_exp_uses_callers_tolerances)."),
     note=("Trusted: Lean kernel + propext/Classical.choice/Quot.sound; Mathlib; hand-written Model.Krylov tied to the "
           "code by the tape-driven and dense correspondence of each run; torch.linalg.matrix_exp, Tensor.norm, "
           "tensordot and binary64 rounding are outside the theorems; the accuracy clause rests on differential "
@@ -161,6 +164,28 @@ def gen_weak_case(rng):
 
 
 KNOWN_CLASS = "krylov-early-accept-avnorm"
+KNOWN_CLASS_ERR1 = "krylov-accept-err1-ignores-err2"
+
+
+def witness_case_err1():
+    """D21-C07: uniform energy offset with E*dt = 2*pi -> err1 = n2*|phi_1| vanishes, err2 is ignored."""
+    a = -1j * (2 * np.pi * np.eye(4) + 1e-4 * np.diag([1.0, -1.0, 2.0, -2.0]))
+    return dict(cls="herm", sub="witness-phase-2pi", n=4, a=a.astype(complex), v=np.array([1, 1, 1, 1], dtype=complex) / 2,
+                shape=(4,), herm=True, tol=1e-9, norm_tol=1e-9, md=100)
+
+
+def gen_phase_case(rng):
+    """-i*(E*I + eps*V) with E = 2*pi*k (k = 1, 2): a uniform offset times dt on a multiple of 2*pi."""
+    g = np.random.default_rng(rng.getrandbits(48))
+    n = rng.randint(2, 24)
+    m = g.normal(size=(n, n)) + 1j * g.normal(size=(n, n))
+    k = rng.choice([1, 1, 2])
+    off = 2 * np.pi * k * (1 + rng.choice([0.0, 0.0, 1e-9, 1e-6, 1e-3]))
+    a = -1j * (off * np.eye(n) + 10 ** rng.uniform(-6, -3) * (m + m.conj().T) / 2)
+    v = g.normal(size=n) + 1j * g.normal(size=n)
+    tol = 10 ** rng.uniform(-12, -7)
+    return dict(cls="herm", sub="phase2pi", n=n, a=a, v=v, shape=(n,), herm=rng.random() < 0.7, tol=tol, norm_tol=tol,
+                md=rng.choice([20, 50, 100]))
 
 
 def witness_case():
@@ -177,6 +202,10 @@ def classify(case, r, its):
     if r is None or not r.converged or r.happy_breakdown:
         return None
     j = r.iteration_count - 1
+    col0 = its[j]["mexp"][1][:, 0]
+    e1_, e2_ = abs(col0[j + 1]), abs(col0[j + 2] * its[j]["n"])
+    if e1_ < e2_ and not e2_ < case["tol"]:
+        return KNOWN_CLASS_ERR1        # D21: accepted on err1 alone although err2 says "not converged"
     c2 = dict(case, tol=-1.0, md=j + 2)
     kind2, r2, rec2 = run_impl(c2)
     pe = parse_events(rec2.events) if kind2 == "ok" else None
@@ -528,6 +557,9 @@ def check(rep: Report, tier: str, seed: int) -> None:
             metas.append(("dense", case, kind, r, rec, its))
 
     add(witness_case())
+    add(witness_case_err1())
+    for i in range(10 if tier == "quick" else 150):
+        add(gen_phase_case(rng))
     for i in range(n_or):
         add(gen_case(rng, tier))
     for i in range(25 if tier == "quick" else 400):
